@@ -80,16 +80,33 @@ theorem iterator_overlay (P : KVSpec O inv vw) (s : σ × CStore) (h : cinv inv 
     cview vw (iter O s asc st e).1 = cview vw s ∧ cinv inv vw (iter O s asc st e).1 :=
   ⟨(iter_spec P s h asc st e).2.2, (iter_spec P s h asc st e).2.1, (iter_spec P s h asc st e).1⟩
 
-/-- An iterator is a value fixed at creation (in the model by construction: `memIterator.items`
-is a private slice of immutable pairs, the parent iterator a value of the same kind): whatever
-calls `l` follow on the same store, the items obtained at creation are the range of the overlay
-*at creation time*.  (That the Go iterators really are unaffected by later `Set/Delete/Write` is
-observed by the harness on every run — iterators are opened, writes issued, then drained.) -/
+/-- **Lazy = eager.**  The Go merge iterator is advanced one `Next` at a time by its caller; its
+whole state is the pair (parent iterator, mem iterator) — `Valid/Key/Value/Next` read and write
+nothing else.  Stepping it yields, item by item, the list `drain` computes at creation. -/
+theorem iter_lazy_eq_eager (asc : Bool) (p : List (Bytes × Bytes)) (c : Assoc (Option Bytes)) :
+    drain asc p c =
+      if valid asc p c then
+        match cur asc p c with
+        | none => []
+        | some kv => kv :: drain asc (next asc p c).1 (next asc p c).2
+      else [] := drain_step asc p c
+
+/-- **Open iterators are snapshots** (as far as the model can say it): the iterator created by
+`Iterator/ReverseIterator` is a value made of the parent iterator (by `KVSpec` a value fixed at
+creation) and a private copy of the in-domain part of the sorted cache (`memIterator.items`); no
+store operation takes or returns it.  Hence whatever calls `l` follow on the same store, what the
+iterator yields — lazily or at once, `iter_lazy_eq_eager` — is the range of the overlay *at
+creation time*, not the range of the store's later contents.  That the Go objects really share
+no mutable state with the store (`kv.Pair`s are replaced, never updated in place; MemDB iterators
+hold their own items) is what the harness observes on every run: iterators are opened, then
+`Set/Delete/Write` are issued, then the iterators are advanced and drained. -/
 theorem iter_is_snapshot (P : KVSpec O inv vw) (s : σ × CStore) (h : cinv inv vw s) (asc : Bool)
     (st e : Option Bytes) (l : List KVOp) :
-    let r := iter O s asc st e
-    let _after := (ops O).run r.1 l
-    r.2 = KV.iter (cview vw s) asc st e := (iter_spec P s h asc st e).2.2
+    (iter O s asc st e).2 = KV.iter (cview vw s) asc st e ∧
+    cview vw ((ops O).run (iter O s asc st e).1 l).1 = (KV.ops.run (cview vw s) l).1 := by
+  obtain ⟨h1, h2, h3⟩ := iter_spec P s h asc st e
+  refine ⟨h3, ?_⟩
+  rw [((ops_spec P).run_refines _ h1 l).2.1, h2]
 
 /-- **`Write` applies exactly the net pending changes**: afterwards the parent's contents are the
 overlay of its former contents with the pending map … -/
